@@ -135,6 +135,7 @@ MATCHERS: Dict[str, Callable[[dict, dict, str], bool]] = {
     "explained_by_D13": explained_by("D13"),
     "explained_by_D14": explained_by("D14"),
     "explained_by_D15": explained_by("D15"),
+    "explained_by_D25": explained_by("D25"),
     "float_nan_inf_in_schema": m_float_nan_inf,
     "container_pred_on_payload": m_container_pred_on_payload,
     "special_decimal": m_special_decimal,
